@@ -205,7 +205,7 @@ pub fn run(ctx: &Ctx) -> (Spec, Report) {
         }
     }
     let n_grid = grid.len();
-    let n = n_grid + ctx.tier.pick(1500, 30_000);
+    let n = n_grid + ctx.tier.pick(4000, 40_000);
     let grid_ref = &grid;
     let mut rep = run_rounds(
         ctx,
@@ -246,7 +246,7 @@ pub fn run(ctx: &Ctx) -> (Spec, Report) {
         judge,
     );
     // multi-file Swift through the real binary: CodableVoid lives in the shared Codable.swift
-    let n_cli = ctx.tier.pick(48, 600);
+    let n_cli = ctx.tier.pick(160, 1200);
     let cli = ctx.cli.clone();
     let scratch = ctx.scratch("swift-multi");
     let seed = ctx.seed;
